@@ -317,7 +317,7 @@ def r01_4(ctx):
         n += 1
         bad = [(i, l["ty"]) for i, l in enumerate(b.locals) if any(c in l["ty"] for c in CONTAINERS)]
         ctx.ob(f"no-container:{b.id}", not bad, site(b), "no container-typed local" if not bad else f"container-typed locals {bad[:2]} (values may be collected / reordered)", trivial=True)
-    ctx.ob("stream-module-bodies", n >= 20, module_file, f"{n} bodies checked for container locals")
+    ctx.ob("stream-module-bodies", n >= 10, module_file, f"{n} bodies checked for container locals")
     # seed pairing
     expect = {"next_element_seed": ("serde::ser::SerializeSeq", "serialize_element"), "next_key_seed": ("serde::ser::SerializeMap", "serialize_key"), "next_value_seed": ("serde::ser::SerializeMap", "serialize_value")}
     seed_impls = [i for i in lib.impls if i.get("trait") == "serde::de::DeserializeSeed"]
